@@ -95,3 +95,39 @@ package gera
 //@   ensures err == nil ==> forall k K :: old(flatHas(iface(w), k)) ==> (k in r)
 //@   ensures err == nil ==> forall k K :: (k in r) ==> old(flatHas(iface(w), k))
 //@   ensures err == nil ==> forall k K :: (k in r) ==> r[k] == old(flatVal(iface(w), k))
+
+// FlattenedParent: what the ancestors define, without this level
+//@ func (w *WrapMap[K, V]) FlattenedParent() (r map[K]V, err error)
+//@   property C14
+//@   modifies nothing
+//@   ensures r != nil ==> fresh(r)
+//@   ensures err == nil && w != nil ==> forall k K :: flatHas(w.parent, k) ==> (k in r)
+//@   ensures err == nil && w != nil ==> forall k K :: (k in r) ==> flatHas(w.parent, k)
+//@   ensures err == nil && w != nil ==> forall k K :: (k in r) ==> r[k] == flatVal(w.parent, k)
+
+// WrappedAndFlattened(m): this level's own entries over what m's hierarchy defines (the own parent is not consulted)
+//@ func (w *WrapMap[K, V]) WrappedAndFlattened(m Map[K, V]) (r map[K]V, err error)
+//@   property C14
+//@   modifies nothing
+//@   ghostvar pd map[K]bool = empty
+//@   ghostvar pv map[K]V = empty
+//@   ghostvar ofp *V = nil
+//@   on call mergo.Merge : pd = dom(deref(arg0u)) ; pv = vals(deref(arg0u)) ; ofp = deref(arg0u)
+//@   on aftercall mergo.Merge : havoc cell(arg0u) ; assume (ofp != nil ==> deref(arg0u) == ofp) && (ofp == nil ==> fresh(deref(arg0u)) && deref(arg0u) != arg1u) ; havoc entries(deref(arg0u)) ; assume result == nil ==> deref(arg0u) != nil && (forall k K :: (k in deref(arg0u)) == (pd[k] || (k in arg1u))) && (forall k K :: (k in arg1u) ==> deref(arg0u)[k] == arg1u[k]) && (forall k K :: pd[k] && !(k in arg1u) ==> deref(arg0u)[k] == pv[k])
+//@   loop 1 invariant fresh(thisMapCopy) && forall k K :: #visited[k] ==> (k in thisMapCopy) && thisMapCopy[k] == w.theMap[k]
+//@   loop 1 invariant forall k K :: (k in thisMapCopy) ==> (k in w.theMap) && thisMapCopy[k] == w.theMap[k]
+//@   ensures r != nil ==> fresh(r)
+//@   ensures err == nil && w != nil ==> forall k K :: old((k in w.theMap) || flatHas(m, k)) ==> (k in r)
+//@   ensures err == nil && w != nil ==> forall k K :: (k in r) ==> old((k in w.theMap) || flatHas(m, k))
+//@   ensures err == nil && w != nil ==> forall k K :: (k in r) ==> r[k] == old(if (k in w.theMap) then w.theMap[k] else flatVal(m, k))
+
+// constructors: a new root level over the given backing map
+//@ func MakeMap() (r *WrapMap[K, V])
+//@   property C14
+//@   modifies nothing
+//@   ensures fresh(r) && r.parent == nil && fresh(r.theMap) && forall k K :: !(k in r.theMap)
+
+//@ func MakeMapWithMap(fromMap map[K]V) (r *WrapMap[K, V])
+//@   property C14
+//@   modifies nothing
+//@   ensures fresh(r) && r.parent == nil && r.theMap == fromMap
